@@ -176,7 +176,7 @@ def random_case(rnd):
     return {"transport": tr, "keep_alive": rnd.random() < 0.5, "timeout": tau, "retries": r, "count": count,
             "level": level, "callers": callers, "faults": faults,
             # the object has been used from another event loop before (a previous asyncio.run)
-            "prior_loop": rnd.random() < 0.15}
+            "prior_loop": rnd.choice([False] * 11 + [True, "contended", "contended"])}
 
 
 def simplify(case):
@@ -251,10 +251,17 @@ def simulate(case):
     if case.get("prior_loop"):
         async def warm():
             world.net.begin_script([], {"k": "ok"})
-            if case["level"] == "inverter":
-                await C.do_call(world, "warm", lambda: inv.read_sensor("modbus-%d" % 0xFFF0))
+
+            async def w(reg):
+                if case["level"] == "inverter":
+                    await C.do_call(world, "warm", lambda: inv.read_sensor("modbus-%d" % reg))
+                else:
+                    await C.do_execute(world, proto, {"op": "read", "reg": reg, "count": count}, "warm")
+            if case["prior_loop"] == "contended":
+                # two overlapping requests there too: the second one had to WAIT for the lock in that loop
+                await asyncio.gather(w(0xFFF0), w(0xFFF1))
             else:
-                await C.do_execute(world, proto, {"op": "read", "reg": 0xFFF0, "count": count}, "warm")
+                await w(0xFFF0)
         status, _ = C.run_world(world, warm())
         if status != "ok":
             return world, dev, results, status
